@@ -38,6 +38,12 @@ func (s *Scanner) Scan() bool {
 		return false
 	}
 
+	// Nothing left to read: the clean end of the input.
+	if err := s.s.Request(1); err != nil {
+		s.err = io.EOF
+		return false
+	}
+
 	if s.p == nil {
 		errs := make([]struct {
 			err error
@@ -62,12 +68,22 @@ func (s *Scanner) Scan() bool {
 				maxpos = v.pos
 			}
 		}
-		s.err = errs[argmax].err
+		s.err = unexpectedEOF(errs[argmax].err)
 		return false
 	}
 
 	s.res, s.err = s.p.Parse(s.s)
+	s.err = unexpectedEOF(s.err)
 	return s.err == nil
+}
+
+// unexpectedEOF turns an end-of-file met in the middle of a record into a
+// reportable error: only the end of input between records is a clean end.
+func unexpectedEOF(err error) error {
+	if err != nil && dig(err) == io.EOF {
+		return io.ErrUnexpectedEOF
+	}
+	return err
 }
 
 // Value returns the most recently scanned sequence value.
